@@ -46,7 +46,7 @@ PERTS = ["dur", "machine", "add_machine", "append", "remove", "swap", "resplit"]
 def strategy(tier):
     big = tier == "thorough"
     inst = gen.instances(
-        max_jobs=4, max_ops=4, max_machines=4, max_total=12 if big else 9, with_text=True
+        max_jobs=4, max_ops=4, max_machines=4, max_total=12 if big else 9, with_text=True, big_ok=2
     )
     pert = st.tuples(
         st.integers(0, 6999).map(lambda i: PERTS[i % 7]),
